@@ -1357,7 +1357,18 @@ impl DbInner {
 				let max_logs = if self.options.sync_data { MAX_LOG_FILES } else { KEEP_LOGS };
 				let dirty_logs = self.log.num_dirty_logs();
 				if !validation_mode {
-					while self.log.num_dirty_logs() > max_logs {
+					// Throttle only while there is a cleanup worker that can make room. Once
+					// shutdown is requested the worker may already have exited (it is joined
+					// before `kill_logs` runs), and without background threads there is none:
+					// waiting would block for ever. `kill_logs` reclaims all logs at the end.
+					#[cfg(any(test, feature = "instrumentation"))]
+					let has_cleanup_worker = self.options.with_background_thread;
+					#[cfg(not(any(test, feature = "instrumentation")))]
+					let has_cleanup_worker = true;
+					while has_cleanup_worker &&
+						!self.shutdown.load(Ordering::SeqCst) &&
+						self.log.num_dirty_logs() > max_logs
+					{
 						log::debug!(target: "parity-db", "Waiting for log cleanup. Queued: {}", dirty_logs);
 						self.cleanup_queue_wait.wait();
 					}
@@ -1424,6 +1435,8 @@ impl DbInner {
 		self.log_worker_wait.signal();
 		self.commit_worker_wait.signal();
 		self.cleanup_worker_wait.signal();
+		// `enact_logs` may be waiting for a cleanup that is not going to happen any more.
+		self.cleanup_queue_wait.signal();
 	}
 
 	fn kill_logs(&self, db: &Arc<DbInner>) -> Result<()> {
